@@ -17,7 +17,7 @@ import (
 // ---- shared by C03, C04, C05 ----
 
 type mergeCase struct {
-	SDLs   []string `json:"sdl"`  // one per service, in list order
+	SDLs   []string `json:"sdl"` // one per service, in list order
 	URLs   []string `json:"urls"`
 	Hide   bool     `json:"hide_node_merger"`
 	Origin string   `json:"origin"` // "mergeable", "conflict:<kind>", "perm"
